@@ -1,6 +1,6 @@
 (* Props/C31.v — Vector search is sound and durable.
    Only statements, `exact`, and Print Assumptions. *)
-From NDB Require Import Vector.Hnsw Vector.Hnsw_proofs.
+From NDB Require Import Vector.Hnsw Vector.Hnsw_proofs Vector.Hnsw_exact Vector.Hnsw_reopen.
 
 (* Soundness, for EVERY state reachable by any history (inserts with any drawn
    levels, deletions, reopens), every query and every k: at most k results, distinct
@@ -47,15 +47,53 @@ Theorem C31_search_existing : C31_search_existing_statement.
 Proof. exact search_existing. Qed.
 Print Assumptions C31_search_existing.
 
-(* Full statements of the two remaining parts of the property (NOT proved here; the
-   check samples them on the implementation and ties the model by correspondence):
-   exactness for small indexes, and invariance under reopen. *)
+(* "unchanged by reopening" is refuted (K-C31-stale-vector): 509 vectors, node 254 gets a new
+   vector, one more insert splits the full leaf of the vector tree between the two cells of
+   node 254; after reopen the node is ranked by its old vector. *)
+Definition C31_reopen_refuted_statement : Prop :=
+  exists pr ops q k r1 r2,
+    result_ids pr ops q k = Some r1 /\ result_ids pr (ops ++ [OReopen]) q k = Some r2 /\ r1 <> r2.
+Theorem C31_reopen_refuted : C31_reopen_refuted_statement.
+Proof. exact reopen_refuted. Qed.
+Print Assumptions C31_reopen_refuted.
+
+(* Exactness on small indexes, PARTIAL: for every state that passes the executable check
+   `small_check` (all ids of S have their vector cached, neighbour lists on all layers stay
+   inside S, entry point in S, |S| <= ef_search, layer 0 connects S from every start) a search
+   that answers returns exactly the brute-force k nearest by (distance, id).  That reachable
+   states of small clean histories pass the check is evaluated by the correspondence on every
+   generated case (Corr.C31.small_state_ok), not proved. *)
+Definition C31_small_exact_checked_statement : Prop :=
+  forall pr ix S q k ix' r,
+    small_check pr ix S = true ->
+    search pr ix q k = Ok (ix', r) ->
+    r = brute_force (map (fun i => (i, vec_of (i_env ix) i)) S) q k.
+Theorem C31_small_exact_checked : C31_small_exact_checked_statement.
+Proof. exact small_exact_checked. Qed.
+Print Assumptions C31_small_exact_checked.
+
+(* Unchanged by reopening, PARTIAL: for every state that passes the executable check
+   `reopen_check` (the meta record read back equals the in-memory entry point / max layer, and
+   for every cached id the vector tree returns the cached vector) reopening succeeds and every
+   search that answered before returns the same list afterwards.  That the states of histories
+   without re-inserted ids pass the check is evaluated by the correspondence at every reopen
+   (Corr.C31.go), not proved; with re-inserted ids it can fail (C31_reopen_refuted). *)
+Definition C31_reopen_same_checked_statement : Prop :=
+  forall pr ix q k ix' r,
+    reopen_check ix = true ->
+    search pr ix q k = Ok (ix', r) ->
+    exists ix2 ix2', reopen ix = Ok ix2 /\ search pr ix2 q k = Ok (ix2', r).
+Theorem C31_reopen_same_checked : C31_reopen_same_checked_statement.
+Proof. exact reopen_same_checked. Qed.
+Print Assumptions C31_reopen_same_checked.
+
+(* Full statements of the parts of the property that are NOT proved in this form: *)
 Definition distinct_ids (ops : list op) : Prop :=
   NoDup (flat_map (fun o => match o with OInsert id _ _ => [id] | _ => [] end) ops).
 Definition C31_small_exact_full_statement : Prop :=
   forall pr ops ix q k ix' r,
     run pr empty_index ops = Ok ix ->
-    distinct_ids ops ->
+    distinct_ids ops -> ~ In OReopen ops ->
     length (stored ops []) <= 2 * p_m pr + 1 -> length (stored ops []) <= p_efs pr ->
     1 <= p_m pr -> 1 <= p_efc pr ->
     length (pages (gt (i_env ix))) = 1 ->          (* the graph tree has not split *)
